@@ -5,7 +5,7 @@
    Tied to src/bin_archive.rs by `./check C02` (shuffled API histories, fresh processes, an independent
    canonical writer). *)
 From Coq Require Import List NArith ZArith Bool Permutation.
-From Mila Require Import Lib.Bytes Lib.Machine Model.BinArchive Model.BinFormat Proofs.SortLemmas Proofs.BinDeterminism.
+From Mila Require Import Lib.Bytes Lib.Machine Model.BinArchive Model.BinFormat Proofs.SortLemmas Proofs.BinDeterminism Proofs.BinFormatSpec Proofs.BinCanonical.
 Import ListNotations.
 Local Open Scope N_scope.
 
@@ -32,6 +32,20 @@ Theorem C02_label_order_insensitive : forall e (l l' : list (N * list bytes)),
   isort (match e with BE => label_leb_be | LE => label_leb_le end) l =
   isort (match e with BE => label_leb_be | LE => label_leb_le end) l'.
 Proof. exact isort_labels_perm_invariant. Qed.
+
+(* serialize produces exactly the canonical image of the content.  [canonical] (Proofs/BinCanonical.v) is
+   written from the property text, without hash maps or pool threading: labels by address (LE) or by
+   name then address (BE); text section = de-duplicated list (label names in emission order, then strings
+   in first-use order), offsets by position; pointer table = internal pointers ascending, then string
+   cells grouped by string in first-use order, each group ascending; header totals computed from the
+   parts.  The sorted association lists ARE the content (C02_sort_order_insensitive). *)
+Theorem C02_serialize_is_canonical : forall m a,
+  a_cstrs a = [] ->
+  Forall (fun p => fst p < U32) (a_text a) ->
+  canonical_size (a_endian a) (a_data a) (isort key_leb (a_ptrs a)) (isort key_leb (a_text a)) (isort key_leb (a_labels a)) < U32 ->
+  serialize m a =
+    canonical (a_endian a) (a_data a) (isort key_leb (a_ptrs a)) (isort key_leb (a_text a)) (isort key_leb (a_labels a)).
+Proof. exact serialize_is_canonical. Qed.
 
 (* non-vacuity: the finding F2 shape - a big-endian archive with the same label on two addresses,
    listed in both orders *)
